@@ -3,7 +3,8 @@
 recognised statement forms is reported and the default program is emitted instead."""
 import ast
 
-KEY = '(request_iface, context_iface, view_name)'
+KEY_BASE = ['request_iface', 'context_iface', 'view_name']
+KEY_EXTRA = ['view_classifier', 'view_types']
 ATTR = 'registry._view_lookup_cache'
 LOOP = (
     'for (req_type, ctx_type) in itertools.product(request_iface.__sro__, context_iface.__sro__):\n'
@@ -38,6 +39,26 @@ class LookupTranslator:
     def __init__(self):
         self.cache_local = None     # name of the local bound to registry._view_lookup_cache
         self.view_types = None
+        self.key = None             # the elements of the cache key (names), the same at the read and the write
+        self.key_local = None       # name of a local the key tuple was bound to, if any
+        self.defaults_done = set()
+
+    def key_expr(self, node):
+        """the cache key expression -> list of element names; every use must give the same list"""
+        if isinstance(node, ast.Name) and node.id == self.key_local:
+            return self.key
+        if not isinstance(node, ast.Tuple) or not all(isinstance(e, ast.Name) for e in node.elts):
+            raise Unknown('cache key is not a tuple of names: %s' % u(node))
+        names = [e.id for e in node.elts]
+        if names[:3] != KEY_BASE or any(n not in KEY_EXTRA for n in names[3:]) or len(set(names)) != len(names):
+            raise Unknown('cache key elements: %s' % names)
+        for n in names[3:]:
+            if n not in self.defaults_done:
+                raise Unknown('cache key uses %s before its default is applied' % n)
+        if self.key is not None and names != self.key:
+            raise Unknown('cache read and write use different keys: %s / %s' % (self.key, names))
+        self.key = names
+        return names
 
     def stmts(self, body):
         out = []
@@ -53,9 +74,11 @@ class LookupTranslator:
             if isinstance(a, ast.Assign) and u(a.targets[0]) == 'view_types' and isinstance(a.value, ast.Tuple) \
                     and all(isinstance(e, ast.Name) and e.id in VIEW_TYPE_IDS for e in a.value.elts):
                 self.view_types = [e.id for e in a.value.elts]
+                self.defaults_done.add('view_types')
                 return []
             raise Unknown('default of view_types: %s' % t)
         if t == 'if view_classifier is None:\n    view_classifier = IViewClassifier':
+            self.defaults_done.add('view_classifier')
             return []
         if t == 'registered = registry.adapters.registered':
             return []
@@ -64,12 +87,18 @@ class LookupTranslator:
             if u(st.value) == ATTR and name not in ('views', 'registered'):
                 self.cache_local = name
                 return ['ReadPtr']
+            if name not in ('views', 'registered', 'cache') and isinstance(st.value, ast.Tuple) \
+                    and self.key_local is None and self.key is None:
+                self.key_expr(st.value)
+                self.key_local = name
+                return []
             if name == 'views':
                 v = st.value
                 if u(v) == '[]':
                     return ['InitViews']
                 if isinstance(v, ast.Call) and isinstance(v.func, ast.Attribute) and v.func.attr == 'get' \
-                        and len(v.args) == 1 and not v.keywords and u(v.args[0]) == KEY:
+                        and len(v.args) == 1 and not v.keywords:
+                    self.key_expr(v.args[0])
                     recv = v.func.value
                     if isinstance(recv, ast.Name) and recv.id == self.cache_local:
                         return ['Get']
@@ -90,7 +119,8 @@ class LookupTranslator:
                 and st.items[0].optional_vars is None:
             return ['Lock'] + self.stmts(st.body) + ['Unlock']
         if isinstance(st, ast.Assign) and len(st.targets) == 1 and isinstance(st.targets[0], ast.Subscript) \
-                and u(st.value) == 'views' and u(st.targets[0].slice) == KEY:
+                and u(st.value) == 'views':
+            self.key_expr(st.targets[0].slice)
             recv = st.targets[0].value
             if isinstance(recv, ast.Name) and recv.id == self.cache_local and self.cache_local != '<anonymous>':
                 return ['Write Local']
@@ -103,14 +133,20 @@ class LookupTranslator:
 
 
 def translate_lookup(fn):
-    """fn: ast.FunctionDef of _find_views -> (program, view_type names)"""
+    """fn: ast.FunctionDef of _find_views -> (program, view_type names, cache key element names)"""
     tr = LookupTranslator()
+    sig = u(fn.args)
+    if sig != 'registry, request_iface, context_iface, view_name, view_types=None, view_classifier=None' \
+            or fn.decorator_list:
+        raise Unknown('signature of _find_views: (%s)' % sig)
     prog = tr.stmts(fn.body)
+    if tr.key is None:
+        raise Unknown('no cache key found')
     if tr.view_types is None:
         raise Unknown('default of view_types not found')
     if not prog or prog[-1] != 'Return':
         raise Unknown('function does not end with return views')
-    return prog, tr.view_types
+    return prog, tr.view_types, tr.key
 
 
 def clear_mode(fn, owner):
